@@ -11,6 +11,12 @@ def harness_for(op):
     w = op.split()[0]
     if w == "hs":
         return core.build_harness("C18hs", "asan", sources=[os.path.join(C18DIR, "hs_harness.c")], extra="-I%s -no-pie" % C18DIR)
+    if w in ("ur", "urkey"):
+        return core.build_harness("C18ur", "asan", sources=[os.path.join(C18DIR, "ur_harness.c"), os.path.join(core.REPO, "src", "rand.c")],
+                                  extra="-Wl,--wrap=fopen,--wrap=fread,--wrap=fclose")
+    if w == "printer":
+        return core.build_harness("C19pr", "asan", sources=[os.path.join(core.ROOT, "props", "C19", "pr_harness.c")],
+                                  extra="-I%s -I%s" % (C18DIR, os.path.join(core.BUILD, "gen_c19")))
     if w in ("diag", "hexodd"):
         return core.build_harness("C19", "asan", extra="-I" + C18DIR)
     if w == "conc":
